@@ -1,6 +1,8 @@
-"""C02 - decided with the load-pipeline specification; see loadcheck.py."""
+"""C02 - load-pipeline exploration (model level + replay) and trace
+validation of every load the repository's own test suite performs."""
 import loadcheck
+import trace_load
 
 
 def run(tier, replay=None):
-    return loadcheck.run('C02', tier, replay)
+    return loadcheck.run('C02', tier, replay, extra=trace_load.validate)
